@@ -255,4 +255,225 @@ theorem detachB_clients (s : Server) (i : Nat) (h : endsWithConn0 (getObj s i) =
   have : (expire && !c.takenOver) = false := h
   rw [this]; rfl
 
+/-! ### leaving the read loop -/
+
+theorem sendLWT_sv (k : Nat) (s : Server) (i : Nat) : Surv k s (sendLWT s i).1 := by
+  unfold sendLWT
+  extract_lets +onlyGivenNames c
+  split
+  · exact Surv.refl k s
+  · extract_lets +onlyGivenNames pk
+    split
+    · exact (Surv.refl k s).upd rfl
+    · extract_lets +onlyGivenNames s1
+      have hs1 : Surv k s s1 := by
+        show Surv k s (if pk.retain = true then retainMsg s pk else s)
+        split
+        · exact retainMsg_surv k s pk
+        · exact Surv.refl k s
+      split
+      rename_i s2 o heq
+      have := publishToSubscribers_surv k s1 pk
+      rw [heq] at this
+      have h2 : Surv k s s2 := hs1.trans this
+      show Surv k s (modObj s2 i _)
+      exact h2.trans (same_setObj_sv k s2 i _ (by rk_rfl))
+
+theorem detachA_sv (k : Nat) (s : Server) (i : Nat) (withErr : Bool) : Surv k s (detachA s i withErr).1 := by
+  unfold detachA
+  split
+  · split
+    rename_i s2 o2 h2
+    split
+    rename_i s3 o3 h3
+    have a := sendLWT_sv k s i
+    rw [h2] at a
+    have b := stopClient_sv k s2 i
+    rw [h3] at b
+    exact a.trans b
+  · exact same_setObj_sv k s i _ (by rk_rfl)
+
+theorem detach_sv (k : Nat) (s : Server) (i : Nat) (withErr : Bool) :
+    SurvW i k (endsWithConn0 (getObj s i) = false) s (detach s i withErr).1 := by
+  unfold detach
+  split
+  rename_i s1 o1 heq
+  have hs1 : Surv k s s1 := by
+    have := detachA_sv k s i withErr
+    rw [heq] at this
+    exact this
+  refine (hs1.w _ _).trans ((detachB_sv k s1 i).weaken (fun h => ?_))
+  rw [(hs1 i).endsWithConn0]; exact h
+
+theorem detach_clients (s : Server) (i : Nat) (withErr : Bool) (h : endsWithConn0 (getObj s i) = false) :
+    (detach s i withErr).1.clients = s.clients := by
+  have hA := detachA_sv 0 s i withErr
+  have hq := (detachA_quiet s i withErr).clients
+  unfold detach
+  split
+  rename_i s1 o1 heq
+  rw [heq] at hA hq
+  show (detachB s1 i).clients = _
+  rw [detachB_clients s1 i (by rw [(hA i).endsWithConn0]; exact h), hq]
+
+/-! ### one inbound packet -/
+
+theorem receivePacket_sv (k : Nat) (s : Server) (i : Nat) (pk : InPk) (hw : WF s) :
+    SurvW i k (pkEnds k pk = false) (preState s i pk) (receivePacket s i pk).1 := by
+  unfold receivePacket
+  extract_lets +onlyGivenNames c r
+  have hr : SurvW i k (pkEnds k pk = false) (preState s i pk) r.1 ∧ WF r.1 := by
+    simp only [r]
+    split
+    · rename_i q d rt id tp pl me al
+      have h0 : SurvW i k (pkEnds k (.publish q d rt id tp pl me al) = false)
+          (preState s i (.publish q d rt id tp pl me al)) s := (preState_same k s i _ rfl).w _ _
+      split
+      · exact ⟨h0, hw⟩
+      · exact ⟨h0.trans ((processPublish_surv k s i q d rt id tp pl me al).weaken
+          (fun h => by simpa [pkEnds] using h)), processPublish_wf _ _ _ _ _ _ _ _ _ _ hw⟩
+    · rename_i id si fs
+      have h0 : SurvW i k (pkEnds k (.subscribe id si fs) = false) (preState s i (.subscribe id si fs)) s :=
+        (preState_same k s i _ rfl).w _ _
+      split
+      · exact ⟨h0, hw⟩
+      · exact ⟨h0.trans ((processSubscribe_surv k s i id si fs).weaken (fun _ => trivial)),
+          processSubscribe_wf _ _ _ _ _ hw⟩
+    · rename_i id fs
+      have h0 : SurvW i k (pkEnds k (.unsubscribe id fs) = false) (preState s i (.unsubscribe id fs)) s :=
+        (preState_same k s i _ rfl).w _ _
+      split
+      · exact ⟨h0, hw⟩
+      · exact ⟨h0.trans ((processUnsubscribe_surv k s i id fs).weaken (fun _ => trivial)),
+          processUnsubscribe_wf _ _ _ _ hw⟩
+    · rename_i id rc
+      have h0 : SurvW i k (pkEnds k (.puback id rc) = false) (preState s i (.puback id rc)) s :=
+        (preState_same k s i _ rfl).w _ _
+      exact ⟨h0.trans ((processPuback_sv k s i id).weaken (fun h => by simpa [pkEnds] using h)),
+        processPuback_wf _ _ _ hw⟩
+    · rename_i id rc
+      have h0 : SurvW i k (pkEnds k (.pubrec id rc) = false) (preState s i (.pubrec id rc)) s :=
+        (preState_same k s i _ rfl).w _ _
+      refine ⟨h0.trans ((processPubrec_sv k s i id rc).weaken (fun h e => ?_)), processPubrec_wf _ _ _ _ hw⟩
+      have h : (id == k && (decide (rc ≥ 0x80) || !reasonValid 5 rc)) = false := h
+      have e' : (id == k) = true := by simpa using e
+      rw [e', Bool.true_and] at h
+      exact h
+    · rename_i id rc
+      have h0 : SurvW i k (pkEnds k (.pubrel id rc) = false) (preState s i (.pubrel id rc)) s :=
+        (preState_same k s i _ rfl).w _ _
+      exact ⟨h0.trans ((processPubrel_sv k s i id rc).weaken (fun h => by simpa [pkEnds] using h)),
+        processPubrel_wf _ _ _ _ hw⟩
+    · rename_i id rc
+      have h0 : SurvW i k (pkEnds k (.pubcomp id rc) = false) (preState s i (.pubcomp id rc)) s :=
+        (preState_same k s i _ rfl).w _ _
+      exact ⟨h0.trans ((processPubcomp_sv k s i id).weaken (fun h => by simpa [pkEnds] using h)),
+        processPubcomp_wf _ _ _ hw⟩
+    · have h0 : SurvW i k (pkEnds k .pingreq = false) (preState s i .pingreq) s :=
+        (preState_same k s i _ rfl).w _ _
+      split <;> exact ⟨h0, hw⟩
+    · rename_i rc sei
+      exact ⟨(processDisconnect_sv k s i rc sei).weaken (fun _ => trivial), processDisconnect_wf _ _ _ _ hw⟩
+  generalize r = r' at hr
+  split
+  · rename_i s1 o
+    split
+    rename_i s2 o2 heq
+    have := nextImmediate_sv k s1 i
+    rw [heq] at this
+    exact hr.1.trans (this.weaken (fun _ => hr.2.allWF i))
+  · rename_i s1 o code
+    split
+    · split
+      rename_i s2 o2 heq
+      have := disconnectClient_sv k s1 i code
+      rw [heq] at this
+      exact hr.1.surv this
+    · exact hr.1
+
+/-! ### one inbound packet on a connection: `recvOn` -/
+
+theorem preState_same' (k : Nat) (s : Server) (j : Nat) (pk : InPk) (h : seiAfter (getObj s j) pk = (getObj s j).sei) :
+    Surv k s (preState s j pk) :=
+  same_setObj_sv k s j _ ⟨fun _ r => r, rfl, rfl, h, rfl⟩
+
+theorem getObj_preState (s : Server) (j : Nat) (pk : InPk) (hj : j < s.objs.length) :
+    getObj (preState s j pk) j = { getObj s j with sei := seiAfter (getObj s j) pk } :=
+  getObj_setObj_eq s j _ hj
+
+theorem getObj_preState_ne (s : Server) (j x : Nat) (pk : InPk) (hx : x ≠ j) :
+    getObj (preState s j pk) x = getObj s x := getObj_setObj_ne s j x _ hx
+
+/-- the walk through `recvOn` for an open connection of object `j`: every other object keeps the record; object `j`
+    itself does (`own`) if the packet does not end the exchange and the session does not end with the connection -/
+theorem recvOn_walk (k : Nat) (s : Server) (conn : Nat) (pk : InPk) (b : Bool) (j : Nat) (own : Prop) (hw : WF s)
+    (hc : assocGet s.connOf conn = some j) (hopen : (getObj s j).isOpen = true)
+    (hown1 : own → pkEnds k pk = false)
+    (hown2 : own → connEnds s j pk b = true → endsWithConn (getObj s j) pk = false) :
+    SurvW j k own (preState s j pk) (recvOn s conn pk b).1 ∧ (own → (recvOn s conn pk b).1.clients = s.clients) := by
+  have hj : j < s.objs.length := hw.conn_valid conn j (assocGet_mem _ _ _ hc)
+  unfold recvOn
+  split
+  · rename_i h; rw [hc] at h; cases h
+  · rename_i j' hc'
+    rw [hc] at hc'; cases hc'
+    split
+    · rename_i hno; rw [hopen] at hno; cases hno
+    · split
+      rename_i s1 o e heq
+      have h1 := receivePacket_sv k s j pk hw
+      rw [heq] at h1
+      have w1 : WF s1 := by have := receivePacket_wf s j pk hw; rw [heq] at this; exact this
+      have sm1 := (receivePacket_own s j hj pk).same
+      rw [heq] at sm1
+      have c1 : s1.clients = s.clients := sm1.clients
+      have hj1 : j < s1.objs.length := by rw [sm1.len]; exact hj
+      have h1' : SurvW j k own (preState s j pk) s1 := h1.weaken hown1
+      have e1 : ∀ sX, SurvW j k own (preState s j pk) sX → own → connEnds s j pk b = true →
+          endsWithConn0 (getObj sX j) = false := by
+        intro sX hX ho hce
+        rw [(hX j (Or.inr ho)).endsWithConn0, getObj_preState _ _ _ hj]; exact hown2 ho hce
+      have fin : ∀ sX bb, SurvW j k own (preState s j pk) sX → sX.clients = s.clients → connEnds s j pk b = true →
+          SurvW j k own (preState s j pk) (detach sX j bb).1 ∧ (own → (detach sX j bb).1.clients = s.clients) := by
+        intro sX bb hX cX hce
+        exact ⟨hX.trans ((detach_sv k sX j bb).weaken (fun ho => e1 sX hX ho hce)),
+          fun ho => (detach_clients sX j bb (e1 sX hX ho hce)).trans cX⟩
+      split
+      · split
+        rename_i s2 o2 hd
+        have hce : connEnds s j pk b = true := by simp [connEnds, heq]
+        have := fin s1 true h1' c1 hce
+        rw [hd] at this
+        exact this
+      · split
+        · rename_i hclosed
+          split
+          rename_i s2 o2 hd
+          have hce : connEnds s j pk b = true := by simp [connEnds, heq, hclosed]
+          have := fin s1 false h1' c1 hce
+          rw [hd] at this
+          exact this
+        · rename_i hstill
+          split
+          · rename_i hb
+            split
+            rename_i s2 o2 e2 heq2
+            have h2 := receivePacket_sv k s1 j .pingreq w1
+            rw [heq2] at h2
+            have sm2 := (receivePacket_own s1 j hj1 .pingreq).same
+            rw [heq2] at sm2
+            have c2 : s2.clients = s.clients := sm2.clients.trans c1
+            have h12 : SurvW j k own (preState s j pk) s2 :=
+              h1'.trans (((preState_same' k s1 j .pingreq rfl).w _ _).trans (h2.weaken (fun _ => rfl)))
+            extract_lets +onlyGivenNames o2f
+            split
+            · split
+              rename_i s3 o3 hd
+              have hce : connEnds s j pk b = true := by simp [connEnds, heq, heq2, hb]
+              have := fin s2 true h12 c2 hce
+              rw [hd] at this
+              exact this
+            · exact ⟨h12, fun _ => c2⟩
+          · exact ⟨h1', fun _ => c1⟩
+
 end Mochi.Broker
